@@ -202,6 +202,24 @@ def c07b(ck, prog):
                 src = "deref(%s)" % cap if cap else src
             if c.targs and c.targs[0] == ty and re.fullmatch(r"(deref|as_ref|borrow|as_str)\(arg1\)|arg1", src):
                 whole = True
+        if not whole and not parse:
+            # the parse may sit in a generic helper `h::<T>(param)`: the helper parses its whole argument as its type
+            # parameter, and this impl instantiates it with its own type on its own whole parameter
+            for g in bodies:
+                for c in g.calls():
+                    h = prog.fns.get(c.callee or "")
+                    if h is None or h.crate != "ohkami" or not c.targs or c.targs[0] != ty:
+                        continue
+                    hp = [x for hb in [h] + prog.descendants(h.key) for x in hb.calls_to(r"^core::str::<impl str>::parse$")]
+                    hprefix = [x for hb in [h] + prog.descendants(h.key) for x in hb.calls_to(r"byte_reader::Reader::<'r>::(read_uint|read_int|read_while|next_if)$")]
+                    if len(hp) != 1 or hprefix or hp[0].fn is not h:
+                        continue
+                    hsrc = decision.describe_deep(h, hp[0].args[0], 4)
+                    # the helper's type parameter is what it parses into (the call's own type argument is that parameter)
+                    generic = bool(hp[0].targs) and re.fullmatch(r"[A-Z]\w*", hp[0].targs[0]) is not None
+                    asrc = decision.describe_deep(g, c.args[0], 4) if c.args else ""
+                    if generic and re.fullmatch(r"(deref|as_ref|borrow|as_str)\(arg1\)|arg1", hsrc) and g is f and re.fullmatch(r"(deref|as_ref|borrow|as_str)\(arg1\)|arg1", asrc):
+                        whole = True
         ok = whole and not prefix
         ck.ob(R, ty + ":whole-segment", ok, f.loc(None),
               "" if ok else ("FromParam for %s reads the parameter with %s: a prefix parser with unchecked arithmetic -- `/12abc` is accepted as 12 and a value beyond the range wraps (release) or panics (debug) instead of being refused"
@@ -283,6 +301,11 @@ def c07c(ck, prog):
         for conds, val in rows:
             tab[tuple(c[1] for c in conds)] = (val or {}).get("desc", "")
         ok = len(tab) == 2 and tab.get(("None",), "").startswith("Some{Ok{None") and "map(" in tab.get(("Some",), "")
+        if not ok and len(tab) == 1:
+            # the same function written with std: Option<Result<T, E>>::transpose() is None => Ok(None), Some(Ok(x)) => Ok(Some(x)),
+            # Some(Err(e)) => Err(e)
+            (only,) = tuple(tab.values())
+            ok = re.fullmatch(r"Some\{transpose\(from_request\(arg1\)\)\}", only) is not None and bool(o[0].calls_to(r"^core::option::Option::<core::result::Result<T, E>>::transpose$"))
         ck.ob(R, "Option<FR>", ok, o[0].loc(None), "" if ok else "Option<FR>::from_request is %r: None must be produced only when the inner extractor reports absence" % tab, how="None => Some(Ok(None)); Some(fr) => Some(fr.map(Some))")
 
 
